@@ -323,3 +323,56 @@ def c10_pool_two_proteins(i1: List[int], i2: List[int]) -> int:
     p1 = [[65, 73, 76][concretize(c, 0, 2)] for c in i1]
     p2 = [[65, 73, 76][concretize(c, 0, 2)] for c in i2]
     return _pool2(p1, p2)
+
+
+def _pool_nf(in1, nf1, in2, nf2, in3, nf3):
+    """three proteins; each one's annotation membership and cds_start_NF tag symbolic: every protein must be digested
+    with ITS OWN flag (False when its transcript is not annotated)"""
+    seen = {}
+
+    def fake_cleave(self, rule, exception=None, miscleavage=2, min_mw=500., min_length=7,
+                    max_length=25, cds_start_nf=False):
+        seen[self.transcript_id] = cds_start_nf
+        return [self]
+
+    d = aa.AminoAcidSeqDict()
+    models = {}
+    for tid, text, present, nf in (('T1', 'MAAK', in1, nf1), ('T2', 'MCCK', in2, nf2), ('T3', 'MDDK', in3, nf3)):
+        d[tid] = AminoAcidSeqRecord(mkseq([ord(c) for c in text]), _id='P' + tid, transcript_id=tid)
+        if present:
+            models[tid] = _TxModel(nf)
+    with patched((AminoAcidSeqRecord, 'enzymatic_cleave', fake_cleave)):
+        d.create_unique_peptide_pool(anno=_AnnoFake(models), rule='trypsin', exception=None)
+    want = {'T1': in1 and nf1, 'T2': in2 and nf2, 'T3': in3 and nf3}
+    for tid in want:
+        if tid not in seen:
+            return -1
+        if bool(seen[tid]) != bool(want[tid]):
+            return -2
+    return OK
+
+
+@cond('C10', bounds='three proteins, each with symbolic annotation membership and cds_start_NF tag', encodes=ENC3,
+      stubs=['AminoAcidSeqRecord.enzymatic_cleave -> recorder'],
+      codes={-1: 'a protein was not digested', -2: 'a protein was digested with the cds_start_NF flag of another '
+             'transcript (or not with False when its transcript is not annotated)'}, timeout=300)
+def c10_pool_nf_per_protein(in1: bool, nf1: bool, in2: bool, nf2: bool, in3: bool, nf3: bool) -> int:
+    """
+    post: _ >= 0
+    """
+    return _pool_nf(in1, nf1, in2, nf2, in3, nf3)
+
+
+@cond('C04', bounds='canonical pool used for filtering: two proteins of length <= 2 over {A, I, L} (every pair, incl. I/L '
+      'twins): the pool holds every peptide AND its I->L image, whatever the order of the proteins', encodes=ENC3,
+      stubs=['AminoAcidSeqRecord.enzymatic_cleave (identity; decided by c10_digest_*)'], codes=CODES3, timeout=300)
+def c04_pool_il_twins(i1: List[int], i2: List[int]) -> int:
+    """
+    pre: 1 <= len(i1) <= 2 and 1 <= len(i2) <= 2
+    pre: all(0 <= c <= 2 for c in i1) and all(0 <= c <= 2 for c in i2)
+    post: _ >= 0
+    """
+    from mpgverif.hlib import concretize
+    p1 = [[65, 73, 76][concretize(c, 0, 2)] for c in i1]
+    p2 = [[65, 73, 76][concretize(c, 0, 2)] for c in i2]
+    return _pool2(p1, p2)
